@@ -276,7 +276,7 @@ def eval_case(ctx, n, vec, l, strategy, mcs, use_low_rank, fam, how="full", chec
         ctx.violation(f"BaaLowRankInitialize({cfg}): circuit state differs from the plan state (node.vectors on node.qubits) "
                       f"by {perr:.3g}", dict(case, err=perr))
     # (c) accounted loss within the budget
-    if not acc <= l_eff + 1e-12:
+    if not acc <= l_eff:                 # exact: every guard of the search compares the accounted loss with the budget exactly
         ok = False
         ctx.violation(f"BaaLowRankInitialize({cfg}): accounted loss node.total_fidelity_loss={acc:.6g} exceeds the budget",
                       dict(case, accounted=acc))
@@ -359,6 +359,23 @@ def evaluate(ctx, deep):
                                                   "vector": [complex(np.round(x, 3)) for x in vec]}
                                           if (n == 3 and kind == "0<l<1" and fam in ("complex", "sep2_shuffled")) else None)
                                 eval_case(ctx, n, vec, l, strategy, mcs, use_low_rank, fam)
+
+    # mid-size registers (blocks of 9 and more qubits: qubit labels beyond 7 inside one low-rank block)
+    for n, sep in (((9, False), (10, True), (10, False), (11, True)) if deep else ((9, False), (10, True))):
+        if sep:
+            lone = int(rng.integers(n))
+            rest = [q for q in range(n) if q != lone]
+            a = _cnormal(rng, 2); a = a / np.linalg.norm(a)
+            b = _cnormal(rng, 2 ** (n - 1)); b = b / np.linalg.norm(b)
+            vec = place([a, b], [(lone,), tuple(rest)], n)
+            fam = "mid_sep1"
+        else:
+            vec = _cnormal(rng, 2 ** n); vec = vec / np.linalg.norm(vec)
+            fam = "mid_generic"
+        for strategy, l in (("greedy", 0.0), ("canonical", 0.02 if sep else 0.0)):
+            ctx.monitor("budget:" + ("l=0" if l == 0.0 else "0<l<1"))
+            ctx.count(f"{strategy}:{fam}", key=(n, l, strategy, vec.tobytes()[:256]), nontrivial=True, sample=None)
+            eval_case(ctx, n, vec, l, strategy, 0, False, fam, check_cx=(n <= 9))
 
 
 def replay(ctx, case):
